@@ -264,3 +264,40 @@ func H_SharedPatch() {
 	vx.Assert(len(chained) > 0, "C09/chained-apply-succeeds")
 	vx.Reach("shared/end")
 }
+
+// H_Repeat_Stable (C09): the same Apply repeated gives the same bytes - also for documents that spell a member
+// name twice (valid JSON, unusual). Run with alternating map iteration order: any dependence of the output on Go's
+// map order shows as a difference between the first and the second call.
+func H_Repeat_Stable() {
+	d := string([]byte{symDigit19("x.d")})
+	docs := []string{
+		`{"a":` + d + `,"b":2,"c":{"x":1,"y":2,"x":3},"a":7}`,
+		`{"k":{"p":1,"q":2,"r":3},"l":[{"m":1,"n":2,"m":3}],"k2":` + d + `}`,
+		`[{"z":1,"y":2,"x":3,"y":4},` + d + `]`,
+	}
+	doc := []byte(docs[vx.Choose("doc", len(docs))])
+	patches := []string{`[]`, `[{"op":"add","path":"/c/z","value":1}]`, `[{"op":"add","path":"/k/s","value":[1]},{"op":"copy","from":"/k","path":"/k3"}]`, `[{"op":"add","path":"/0/w","value":null}]`}
+	pB := []byte(patches[vx.Choose("patch", len(patches))])
+	vx.Note("doc", doc)
+	vx.Note("patch", pB)
+	var o1, o2, m1, m2 []byte
+	var e1, e2 error
+	panicked := vx.CatchPanic(func() {
+		p, err := jsonpatch.DecodePatch(pB)
+		if err != nil {
+			return
+		}
+		o1, e1 = p.Apply(doc)
+		o2, e2 = p.Apply(doc)
+		m1, _ = jsonpatch.CreateMergePatch([]byte(`{"a":1,"b":2,"c":3}`), []byte(`{"a":2,"b":3,"c":4,"d":`+d+`}`))
+		m2, _ = jsonpatch.CreateMergePatch([]byte(`{"a":1,"b":2,"c":3}`), []byte(`{"a":2,"b":3,"c":4,"d":`+d+`}`))
+	})
+	vx.Assert(!panicked, "C04/repeat-no-panic")
+	if panicked {
+		return
+	}
+	vx.Assert((e1 == nil) == (e2 == nil), "C09/repeat-same-success")
+	vx.Assert(vx.EqBytes(o1, o2), "C09/repeat-same-bytes")
+	vx.Assert(vx.EqBytes(m1, m2), "C09/repeat-createmergepatch-same-bytes")
+	vx.Reach("repeat/end")
+}
